@@ -1128,8 +1128,11 @@ func (up4 *UP4) configureMeters(qers []qer) error {
 }
 
 func verifyPDR(pdr pdr) error {
-	if pdr.precedence > math.MaxUint16 {
-		return ErrUnsupported("precedence greater than 65535", pdr.precedence)
+	// The precedence is translated to the P4Runtime priority (65535 - precedence) of the
+	// applications table entry. The priority of a table with ternary/range match fields
+	// must not be 0, so precedence 65535 cannot be represented either.
+	if pdr.precedence >= math.MaxUint16 {
+		return ErrUnsupported("precedence greater than 65534", pdr.precedence)
 	}
 
 	return nil
